@@ -9,6 +9,9 @@ use tokio::io::{self, AsyncRead, AsyncReadExt};
 
 use self::{bins::read_bins, intervals::read_intervals, metadata::read_metadata};
 
+// The count comes from the input: use it as a capacity hint only up to this bound.
+const MAX_PREALLOCATED_LEN: usize = 1 << 16;
+
 pub(super) async fn read_reference_sequences<R>(
     reader: &mut R,
 ) -> io::Result<Vec<ReferenceSequence<LinearIndex>>>
@@ -19,7 +22,7 @@ where
         usize::try_from(n).map_err(|e| io::Error::new(io::ErrorKind::InvalidData, e))
     })?;
 
-    let mut reference_sequences = Vec::with_capacity(n_ref);
+    let mut reference_sequences = Vec::with_capacity(n_ref.min(MAX_PREALLOCATED_LEN));
 
     for _ in 0..n_ref {
         let reference_sequence = read_reference_sequence(reader).await?;
